@@ -32,6 +32,7 @@ inductive Ref where
   | k_moduleName | types_ModuleName | ibctransfertypes_ModuleName | k_moduleAddress
   | holder | sender | receiver | from_ | erc20Contract | pair_GetERC20Contract
   | bridgeToken | coin | targetCoin | baseCoin | ibcCoin | addBridgeFee | coins
+  | mintCoins | unlockCoins | erc20types_ModuleName | tokenPair_GetERC20Contract | amount
   | none | other
   deriving DecidableEq, Repr
 
@@ -122,6 +123,35 @@ def envErc20 (g : Nat) (s r : Addr) : Env :=
     | .erc20Contract => some (.erc g)
     | .pair_GetERC20Contract => some (.erc g)
     | _ => none⟩
+
+/-- `bridgeCallTransferCoins(sender, tokens)` for one token of kind `k` on chain `c` (`sender` is the refund address) -/
+def envRefund (k : Kind) (g c : Nat) (r : Addr) : Env :=
+  ⟨xAddr c r, fun | .mintCoins => some (bridgeAsset k g c) | .unlockCoins => some (bridgeAsset k g c) | _ => none⟩
+
+/-- erc20 `ConvertDenomToTarget(from, coin, target)` and its `convertNativeCoin` / `convertNativeERC20` -/
+def envDenom (g : Nat) (h : Addr) (src dst : Den) : Env :=
+  ⟨fun | .types_ModuleName => some E | .from_ => some h | _ => none,
+   fun | .coin => some (src.asset g) | .targetCoin => some (dst.asset g) | _ => none⟩
+
+/-- precompile `convertERC20(tokenPair, amount, sender)` (bank part) -/
+def envPrecompile (g : Nat) (s : Addr) : Env :=
+  ⟨fun | .erc20types_ModuleName => some E | .sender => some s | .tokenPair_GetERC20Contract => some .wfx | _ => none,
+   fun | .amount => some (.base g) | _ => none⟩
+
+/-- `ConvertDenomToTarget` = its two sends with the mint / burn of `convertDenomToContractOwner` in between (the position
+of that inner call between the two sends is read by hand, its three branches and the two sends are regenerated) -/
+def interpDenom (e : Env) (n : Nat) (outer mid : List Sig) : Option (List Prim) :=
+  match interp e n outer, interp e n mid with
+  | some o, some m => some (o.take 1 ++ m ++ o.drop 1)
+  | _, _ => none
+
+/-- the primitives of a flow that are bank calls (not ERC-20 contract calls) -/
+def bankPart (fl : List Prim) : List Prim :=
+  fl.filter (fun p => match p with
+    | .send (.erc _) .. => false
+    | .mint (.erc _) .. => false
+    | .burn (.erc _) .. => false
+    | _ => true)
 
 /-! ### IBC alias flows (`x/crosschain/keeper/many_to_one.go`) -/
 
